@@ -250,7 +250,11 @@ func (r *runner) runShard(variant string, shard, nshards int) childOut {
 	bin := filepath.Join(buildDir, "vdrive-"+variant)
 	watchdog := time.Duration(r.m.WatchdogS) * time.Second
 	if watchdog == 0 {
-		watchdog = 20 * time.Minute
+		// generous (>= 20x the measured run time of any shard), decided by the tier only
+		watchdog = 6 * time.Minute
+		if r.tier == "thorough" {
+			watchdog = 45 * time.Minute
+		}
 	}
 	skip := ""
 	var merged *trace.Result
